@@ -1218,7 +1218,11 @@ class FE:
                 out.append('%s = &%s;' % (r, an))
         elif op == 'load':
             em.need_complete(ins['t'])
-            if ins.get('atomic') and s.conc and em.o.yield_atomics: s.yield_point('verif_pend_run();')
+            if ins.get('atomic') and s.conc and em.o.yield_atomics:
+                # spin loops: re-loading the same atomic while nobody has written any atomic is a stutter step; the thread stays disabled until the
+                # global atomic-write epoch changes (turns livelock into the deadlock check and keeps schedules finite)
+                em.load_sites = getattr(em, 'load_sites', 0) + 1   # a stutter needs the same program point (a loop re-executing this very load)
+                s.yield_point('verif_pend_load((void*)%s, %dU);' % (s.V(ins['pt'], ins['pv']), em.load_sites)); out.append('verif_did_load((void*)%s, %dU);' % (s.V(ins['pt'], ins['pv']), em.load_sites))
             out.append('%s = *%s;' % (r, s.V(ins['pt'], ins['pv'])))
         elif op == 'store':
             if ins.get('atomic') and s.conc and em.o.yield_atomics: s.yield_point('verif_pend_run();')
@@ -1524,7 +1528,7 @@ class FE:
             if n == 'verif_thread_join':
                 s.yield_point('verif_pend_join(%s);' % A[0]); return True
             if n == 'verif_yield':
-                s.yield_point('verif_pend_run();'); return True
+                return True   # std::this_thread::yield(): no visible effect; context switches happen at the surrounding visible operations anyway
             if callee.name in em.yielding:
                 g = s.m.funcs[callee.name]
                 s.conc_start(callee.name, A)
@@ -1636,6 +1640,9 @@ class FE:
                     # zero-fill in units of the pointee type (one iteration per element instead of per byte)
                     em.need_complete(et); ct = s.cty(et); z = '(%s)0' % ct if isinstance(s.res(et), (TInt, TPtr)) else '(%s){0}' % ct
                     out.append('{ uint64_t n_%s = %s; %s* d_%s = (%s*)%s; if (n_%s %% %d != 0) verif_memset((uint8_t*)d_%s, 0, n_%s); else for (uint64_t i_ = 0; i_ < n_%s / %d; ++i_) d_%s[i_] = %s; }' % (k, A[2], ct, k, ct, A[0], k, esz, k, k, k, esz, k, z))
+                elif isinstance(vv, VInt) and vv.v == 0:
+                    # zero fill of unknown element type: 8-byte words when the length allows (8x fewer loop iterations)
+                    out.append('{ uint64_t n_%s = %s; uint8_t* d_%s = (uint8_t*)%s; if (n_%s %% 8 == 0) { for (uint64_t i_ = 0; i_ < n_%s / 8; ++i_) ((uint64_t*)d_%s)[i_] = 0; } else { for (uint64_t i_ = 0; i_ < n_%s; ++i_) d_%s[i_] = 0; } }' % (k, A[2], k, A[0], k, k, k, k, k))
                 else:
                     out.append('{ uint64_t n_%s = %s; uint8_t* d_%s = (uint8_t*)%s; uint8_t c_%s = %s; for (uint64_t i_ = 0; i_ < n_%s; ++i_) d_%s[i_] = c_%s; }' % (k, A[2], k, A[0], k, A[1], k, k, k))
             return False
@@ -1727,6 +1734,7 @@ class FE:
         if n == '__cxa_begin_catch':
             out.append('verif_exc = 0; %s(uint8_t*)verif_exc_obj;' % asg); return False
         if n == '__cxa_end_catch':
+            out.append('if (!verif_exc && verif_exc_obj) { verif_delete(verif_exc_obj); verif_exc_obj = 0; }')   # the caught exception object is released
             return False
         if n == '__cxa_rethrow':
             out.append('verif_exc = 1;'); return True
@@ -1772,7 +1780,7 @@ CONC_RT_DECLS = r'''
 #endif
 extern uint32_t verif_cur; extern uint32_t verif_atomic_epoch;
 void verif_pend_lock(void* m); void verif_pend_waitcv(void* cv); void verif_pend_join(uint32_t id); void verif_pend_run(void);
-void verif_do_lock(void* m); void verif_do_unlock(void* m); void verif_cv_enqueue(void* cv);
+void verif_do_lock(void* m); void verif_do_unlock(void* m); void verif_cv_enqueue(void* cv); void verif_pend_load(void* a, uint32_t site); void verif_did_load(void* a, uint32_t site);
 '''
 
 PRELUDE = r'''
@@ -1938,6 +1946,24 @@ def emit_module(m, opts):
             bodies.append(sig + '\n{ if (v_%s != 0 && v_%s != 0) __CPROVER_assert((uint64_t)((const uint8_t*)v_%s - (const uint8_t*)v_%s) <= %dULL, "modelling bound: std::sort contract stub used with more than 16 elements"); }\n'
                           % (san(f.params[1][1]), san(f.params[0][1]), san(f.params[1][1]), san(f.params[0][1]), 16 * esz))
             continue
+        if not f.decl and opts.model_string_vector_growth and '_M_realloc_insert' in nm and len(f.params) == 3 and all(isinstance(em.res(t_), TPtr) for (t_, _) in f.params) \
+                and 'basic_string' in repr(f.params[1][0]) and em.size_align(em.res(f.params[1][0]).to)[0] == 32:
+            # contract model of libstdc++'s std::vector<std::string>::_M_realloc_insert(end(), string&&) (environment code): new storage of a fixed
+            # capacity, elements moved bitwise with the small-string self-pointer fixed up, old storage released.  Append only, capacity asserted.
+            v_, pos_, x_ = ['v_' + san(pn) for (_, pn) in f.params]; sty = s_cty = em.cty(em.res(f.params[1][0]).to); capn = opts.model_string_vector_growth
+            mv = ('{ uint8_t* sp_ = *(uint8_t**)S_; if (sp_ == (uint8_t*)S_ + 16) { *(uint8_t**)D_ = (uint8_t*)D_ + 16; *(uint64_t*)((uint8_t*)D_ + 16) = *(uint64_t*)((uint8_t*)S_ + 16); *(uint64_t*)((uint8_t*)D_ + 24) = *(uint64_t*)((uint8_t*)S_ + 24); } '
+                  'else { *(uint8_t**)D_ = sp_; *(uint64_t*)((uint8_t*)D_ + 16) = *(uint64_t*)((uint8_t*)S_ + 16); } *(uint64_t*)((uint8_t*)D_ + 8) = *(uint64_t*)((uint8_t*)S_ + 8); '
+                  '*(uint8_t**)S_ = (uint8_t*)S_ + 16; *(uint64_t*)((uint8_t*)S_ + 8) = 0; ((uint8_t*)S_)[16] = 0; }')
+            body = ['  %s** vp_ = (%s**)%s; %s* os_ = vp_[0]; %s* of_ = vp_[1];' % (sty, sty, v_, sty, sty),
+                    '  uint64_t n_ = (os_ != 0) ? (uint64_t)(of_ - os_) : 0;',
+                    '  __CPROVER_assert(%s == of_, "modelling bound: vector<string> growth model supports insertion at end() only");' % pos_,
+                    '  __CPROVER_assert(n_ < %dULL, "modelling bound: vector<string> growth model capacity");' % capn,
+                    '  %s* nb_ = (%s*)malloc(sizeof(%s) * %d); __CPROVER_assume(nb_ != 0);' % (sty, sty, sty, capn),
+                    '  for (uint64_t i_ = 0; i_ < n_; ++i_) { %s* D_ = &nb_[i_]; %s* S_ = &os_[i_]; %s }' % (sty, sty, mv),
+                    '  { %s* D_ = &nb_[n_]; %s* S_ = %s; %s }' % (sty, sty, x_, mv),
+                    '  if (os_ != 0) free(os_);', '  vp_[0] = nb_; vp_[1] = nb_ + n_ + 1; vp_[2] = nb_ + %d;' % capn]
+            bodies.append(sig + '\n{\n' + '\n'.join(body) + '\n}\n')
+            continue
         if not f.decl and any(u in nm for u in opts.unreachable):
             bodies.append(sig + '\n{ __CPROVER_assert(0, "modelling bound: function assumed unreachable was reached: %s"); __CPROVER_assume(0); %s }\n' % (nm[:60], '' if isinstance(f.ret, TVoid) else ('return (%s)0;' % em.cty(f.ret) if isinstance(em.res(f.ret), (TInt, TPtr, TFloat)) else 'return (%s){0};' % em.cty(f.ret))))
             continue
@@ -2027,7 +2053,7 @@ def main():
     ap.add_argument('--gcc', action='store_true'); ap.add_argument('--conc', action='store_true'); ap.add_argument('--flex', action='store_true')
     ap.add_argument('--no-typed-malloc', action='store_true'); ap.add_argument('--alloc-cap', type=int, default=0)
     ap.add_argument('--unreachable', action='append', default=[])
-    ap.add_argument('--introsort-small', action='store_true'); ap.add_argument('--no-typed-memcpy', action='store_true'); ap.add_argument('--yield-atomics', action='store_true'); ap.add_argument('--no-yield', action='append', default=[])
+    ap.add_argument('--model-string-vector-growth', type=int, default=0); ap.add_argument('--introsort-small', action='store_true'); ap.add_argument('--no-typed-memcpy', action='store_true'); ap.add_argument('--yield-atomics', action='store_true'); ap.add_argument('--no-yield', action='append', default=[])
     ap.add_argument('--dispatch', action='append'); ap.add_argument('--dispatch-threshold', type=int, default=8)
     o = ap.parse_args()
     text = open(o.input).read()
